@@ -159,7 +159,7 @@ structure NG (inp : RunInput) (σ : Name → RS) (n : Name) (nd : Node) : Prop w
   bd : ∀ p ∈ nd.bad, σ p = .fail ∧ (StageG inp σ n p ∨ nd.pc.late9 = true)
   ig : ∀ p ∈ nd.ign, σ p = .ign ∧ (StageG inp σ n p ∨ nd.pc.late9 = true)
 
-variable {inp : RunInput} {σ : Name → RS}
+variable {inp : RunInput} [NoFailDeliver inp] {σ : Name → RS}
 
 theorem NG.mono {σ' : Name → RS} {n : Name} {nd : Node} (h : NG inp σ n nd)
     (hs : ∀ x, (σ x).finished = true → σ' x = σ x) : NG inp σ' n nd := by
@@ -256,7 +256,7 @@ theorem absorbDone_ng_calc {s : Sys} {n : Name} (hσ : ∀ d, stOf s d = σ d) :
   | nil => intro nd h _; exact h
   | cons a t ih =>
     intro nd h hds
-    simp only [absorbDone]
+    simp only [absorbDone, deliverF_id]
     have ha := hds a (by simp)
     split
     · exact ih nd h (fun d hd => hds d (by simp [hd]))
@@ -272,7 +272,7 @@ theorem absorbDone_ng_plain {s : Sys} {n : Name} (lt : Bool) (hσ : ∀ d, stOf 
   | nil => intro nd h _ _; exact h
   | cons a t ih =>
     intro nd h hlt hds
-    simp only [absorbDone]
+    simp only [absorbDone, deliverF_id]
     have ha := hds a (by simp)
     split
     · exact ih nd h hlt (fun d hd => hds d (by simp [hd]))
@@ -487,7 +487,7 @@ theorem dtick_ng {s s' : Sys} {perm : List Name} (hσ : ∀ d, stOf s d = σ d) 
 theorem wakeOne_ng {s : Sys} {pst : RS} {p w : Name} {nd : Node} (h : AllNG inp σ s) (hw : s.nodes w = some nd)
     (hnc : wakeCrash p nd = false) (hpst : pst = σ p) : AllNG inp σ (wakeOne inp s pst p w nd) := by
   have := ng_setNode h (wokenNode_ng (inp := inp) pst (h w nd hw) hnc hpst)
-  unfold wakeOne; split
+  rw [wakeOne_eq]; split
   · intro k y hk; exact this k y hk
   · exact this
 
